@@ -55,6 +55,25 @@ theorem strictInc_of_pairwise : ∀ (l : List Nat), l.Pairwise (· < ·) → str
       simp only [strictInc, Bool.and_eq_true, decide_eq_true_eq]
       exact ⟨h.1 y (by simp), ih h.2⟩
 
+theorem pairwise_of_strictInc : ∀ (l : List Nat), strictInc l = true → l.Pairwise (· < ·) := by
+  intro l
+  induction l with
+  | nil => intro _; exact List.Pairwise.nil
+  | cons x xs ih =>
+    intro h
+    cases xs with
+    | nil => simp
+    | cons y ys =>
+      simp only [strictInc, Bool.and_eq_true, decide_eq_true_eq] at h
+      have ih' := ih h.2
+      rw [List.pairwise_cons]
+      refine ⟨?_, ih'⟩
+      intro z hz
+      rcases List.mem_cons.mp hz with hz | hz
+      · subst hz; exact h.1
+      · have := (List.pairwise_cons.mp ih').1 z hz
+        omega
+
 /-- the sorted keys (`row_index_list[sorted_dex]`) -/
 theorem argsort_sorted_rows (rows : List Nat) :
     (argsort rows).map (rows.getD · 0)
